@@ -546,7 +546,25 @@ fn interpret(
             r => return Err(Failure("resume-failed".into(), format!("final resume(): {r:?}"))),
         }
         let mut got = None;
+        if c.spec.seed % 3 == 0 {
+            // a caller that polls with wait_timeout(0) must see the run end too: zero-timeout polls for up to 20 s
+            let deadline = std::time::Instant::now() + Duration::from_secs(20);
+            while got.is_none() && std::time::Instant::now() < deadline {
+                match call(req_tx, resp_rx, Req::Wait(0), "wait_timeout", Duration::ZERO)? {
+                    Resp::Trace(t) => got = Some(t),
+                    Resp::Timeout => std::thread::sleep(Duration::from_micros(300)),
+                    r => return Err(Failure("wait-failed".into(), format!("final wait_timeout(0): {r:?}"))),
+                }
+            }
+            if got.is_none() {
+                return Err(Failure("zero-timeout-polling-never-ends".into(), "all gates are open and resume() was called, but 20 s of wait_timeout(0) polls never returned the trace".into()));
+            }
+            o.label("finished-by-zero-timeout-polling");
+        }
         for _ in 0..4 {
+            if got.is_some() {
+                break;
+            }
             match call(req_tx, resp_rx, Req::Wait(10_000), "wait_timeout", Duration::from_secs(10))? {
                 Resp::Trace(t) => {
                     got = Some(t);
